@@ -287,6 +287,10 @@ Section Glue.
     c_revcomp : SM -> cres SM;
     c_max_score : SM -> cres Z;
     c_sm_cells : SM -> list (list Z);                         (* the scores, row by row, as f32 bits *)
+    c_cm_eq : CM -> CM -> bool;                               (* derived PartialEq of the core types *)
+    c_wm_eq : WM -> WM -> bool;
+    c_sm_eq : SM -> SM -> bool;
+    c_dist_sf : SM -> cres (list Z);                          (* to_score_distribution().sf(), as a digest *)
     c_stripe : abc -> list Z -> cres SQ;                      (* encode + to_striped *)
     c_configure : SQ -> SM -> cres SQ;                        (* StripedSequence::configure *)
     c_score : SM -> SQ -> cres SC;                            (* Pipeline::dispatch().score *)
@@ -298,7 +302,14 @@ Section Glue.
     c_tfm_pvalue : SM -> Z -> cres Z;
     c_tfm_score : SM -> Z -> cres Z;
     c_scan : SM -> SQ -> Z -> Z -> cres (list (Z * Z));       (* hits of Scanner in iteration order *)
-    c_read : fmt -> abc -> list Z -> list ritem               (* items of the reader, up to the first error *)
+    c_read : fmt -> abc -> list Z -> list ritem;              (* items of the reader, up to the first error *)
+    (* items of the reader over a stream that misbehaves as described by the (opaque) descriptor:
+       the iteration goes on after an error *)
+    c_read_faulty : list Z -> fmt -> abc -> list ritem;
+    (* the j-th next() (counting from 0) of the reader behind loader number id of the history;
+       None = end of the iteration.  What a reader sees depends on the other readers that share
+       its file object; the correspondence run mirrors the interleaving on core readers. *)
+    c_lazy_next : nat -> nat -> option ritem
   }.
 
   Variable K : core.
@@ -328,7 +339,11 @@ Section Glue.
   | OScores (sc : SC)
   | OScanner (hits : list (Z * Z))       (* hits not yet returned *)
   | OMotif (m : motif)
-  | OLoaded (ms : list motif).
+  | OLoaded (ms : list motif)
+  | OEncoded (a : abc) (text : list Z)   (* EncodedSequence: determined by its (valid) text *)
+  | ODist (sf : list Z)                  (* ScoreDistribution: the survival function (digest) *)
+  | OFile                                (* an in-memory binary file object (io.BytesIO) *)
+  | OLoader (a : abc) (id : nat) (calls : nat).   (* a Loader that has answered `calls` next() calls *)
 
   Definition state := list (nat * obj).
 
@@ -452,7 +467,10 @@ Section Glue.
   | RF32 (bits : Z)
   | RHits (h : list (Z * Z)) (ended : bool)
   | RLoad (ms : list motif) (tail : outcome unit)
-  | RUnit.
+  | RUnit
+  | RLoadSeq (items : list (outcome motif))
+  | RBool (b : bool)
+  | RStr (s : list Z).
 
   Definition glue_threshold (sc : SC) (t : pyval) : outcome result :=
     x <~ extract_f32 t ;; l <~ liftp (c_threshold K sc x) ;; Value (RIdx l).
@@ -607,7 +625,8 @@ Section Glue.
   | FileMissing                    (* path that cannot be opened: OSError *)
   | FileNoRead                     (* object without read(): the AttributeError propagates *)
   | FileNotBytes                   (* read(0) does not return bytes: TypeError *)
-  | FileBroken.                    (* read() fails / returns too much after construction *)
+  | FileBroken                     (* read() fails / returns too much after construction *)
+  | FileFaulty (desc : list Z).    (* a later read() raises / returns non-bytes / too much / closes the file *)
 
   Definition convert_error (e : rerr) : exc :=
     match e with EInvalidData => ValueError | EIo => OSError | ENom => ValueError end.
@@ -655,10 +674,86 @@ Section Glue.
     | FileNoRead => PyExc AttributeError
     | FileNotBytes => PyExc TypeError
     | FileBroken => k <~ format_of f a ;; Value (RLoad [] (PyExc OSError))
+    | FileFaulty desc =>
+        (* PyFileRead turns whatever went wrong in read() into an io::Error; the reader reports it
+           like any I/O error and may be asked for more afterwards *)
+        k <~ format_of f a ;;
+        Value (RLoadSeq (map (fun it => match it with
+                                        | ROk r => convert_record a r
+                                        | RErr e => PyExc (convert_error e)
+                                        | RPanic => Panic
+                                        end) (c_read_faulty K desc k a)))
     | FileData bytes =>
         k <~ format_of f a ;;
         let (ms, t) := load_items a (c_read K k a bytes) in
         Value (RLoad ms t)
+    end.
+
+  (* ---------------------------------------------------------------- EncodedSequence, copies, ==, str *)
+
+  (* EncodedSequence(sequence, protein=False) *)
+  Definition glue_encode (sequence : pyval) (protein : option pyval) : outcome obj :=
+    s <~ extract_str sequence ;;
+    a <~ protein_flag protein ;;
+    _ <~ lift ValueError (c_encode_ok K a s) ;;
+    Value (OEncoded a s).
+
+  (* encoded.stripe() *)
+  Definition glue_enc_stripe (a : abc) (s : list Z) : outcome obj :=
+    q <~ lift ValueError (c_stripe K a s) ;; Value (OSeq a q).
+
+  (* copy() / __copy__: EncodedSequence and StripedSequence derive Clone; the other classes have
+     no __copy__ and cannot be pickled, so copy.copy() raises TypeError *)
+  Definition glue_copy (o : obj) : outcome obj :=
+    match o with
+    | OEncoded a s => Value (OEncoded a s)
+    | OSeq a q => Value (OSeq a q)
+    | _ => PyExc TypeError
+    end.
+
+  (* a == b for CountMatrix / WeightMatrix / ScoringMatrix: the derived PartialEq of the core data
+     when b is an object of the same class (and alphabet), False for anything else *)
+  Definition glue_eq (o : obj) (other : option obj) : option bool :=
+    match o with
+    | OCount a c =>
+        Some (match other with Some (OCount a' c') => abc_eqb a a' && c_cm_eq K c c' | _ => false end)
+    | OWeight a w =>
+        Some (match other with Some (OWeight a' w') => abc_eqb a a' && c_wm_eq K w w' | _ => false end)
+    | OScoring a s =>
+        Some (match other with Some (OScoring a' s') => abc_eqb a a' && c_sm_eq K s s' | _ => false end)
+    | _ => None
+    end.
+
+  (* sm.score_distribution: computed (and validated) like the "meme" p-values *)
+  Definition glue_dist (s : SM) : outcome obj :=
+    if ordered_ok true (c_sm_cells K s) then d <~ liftp (c_dist_sf K s) ;; Value (ODist d)
+    else PyExc ValueError.
+
+  (* ---------------------------------------------------------------- lazy loaders *)
+
+  (* Loader(file, format, protein=) on a readable binary file object, not iterated yet *)
+  Definition glue_loader_new (id : nat) (format protein : option pyval) : outcome obj :=
+    f <~ format_arg format ;;
+    a <~ protein_flag protein ;;
+    _ <~ format_of f a ;;
+    Value (OLoader a id 0).
+
+  (* up to k next() calls: the motifs obtained, ending early with StopIteration or an exception *)
+  Fixpoint lazy_take (a : abc) (id calls k : nat) : list (outcome motif) * nat :=
+    match k with
+    | O => ([], calls)
+    | S k' =>
+        match c_lazy_next K id calls with
+        | None => ([], S calls)
+        | Some (ROk r) =>
+            match convert_record a r with
+            | Value m => let (l, c) := lazy_take a id (S calls) k' in (Value m :: l, c)
+            | PyExc e => ([PyExc e], S calls)
+            | Panic => ([Panic], S calls)
+            end
+        | Some (RErr e) => ([PyExc (convert_error e)], S calls)
+        | Some RPanic => ([Panic], S calls)
+        end
     end.
 
   (* ---------------------------------------------------------------- histories *)
@@ -683,7 +778,16 @@ Section Glue.
   | KGetMotif (dst self : nat) (which : nat)          (* 0 counts, 1 pwm, 2 pssm *)
   | KLoad (dst : nat) (file : file_arg) (format protein : option pyval)
   | KGetLoaded (dst self : nat) (idx : nat) (which : nat)
-  | KDelete (self : nat).      (* the last reference held by the history is dropped (del + gc.collect()) *)
+  | KDelete (self : nat)
+  | KEncode (dst : nat) (sequence : pyval) (protein : option pyval)
+  | KEncStripe (dst self : nat)
+  | KCopy (dst self : nat)
+  | KEq (self : nat) (other : pyval)
+  | KStr (self : nat)
+  | KDist (dst self : nat)
+  | KFileNew (dst : nat)
+  | KLoaderNew (dst file : nat) (format protein : option pyval)
+  | KLoaderNext (self : nat) (k : nat).      (* the last reference held by the history is dropped (del + gc.collect()) *)
 
   (* outcome of one step as the harness sees it; [Unbound]: the history refers to a slot
      that holds no suitable object, nothing is called *)
@@ -818,6 +922,10 @@ Section Glue.
     | KLoad dst file format protein =>
         match glue_load file format protein with
         | Value (RLoad ms t) => (Done (Value (RLoad ms t)), bind_slot (unbind st dst) dst (OLoaded ms))
+        | Value (RLoadSeq items) =>
+            (Done (Value (RLoadSeq items)),
+             bind_slot (unbind st dst) dst
+               (OLoaded (flat_map (fun o => match o with Value m => [m] | _ => [] end) items)))
         | Value r => (Done (Value r), unbind st dst)
         | PyExc e => (Done (PyExc e), unbind st dst)
         | Panic => (Done Panic, unbind st dst)
@@ -834,6 +942,61 @@ Section Glue.
             | None => (Unbound, unbind st dst)
             end
         | _ => (Unbound, unbind st dst)
+        end
+    | KEncode dst sequence protein => store st dst (glue_encode sequence protein)
+    | KEncStripe dst self =>
+        match lookup st self with
+        | Some (OEncoded a s) => store st dst (glue_enc_stripe a s)
+        | _ => (Unbound, unbind st dst)
+        end
+    | KCopy dst self =>
+        match lookup st self with
+        | Some o => store st dst (glue_copy o)
+        | None => (Unbound, unbind st dst)
+        end
+    | KEq self other =>
+        match lookup st self with
+        | Some o =>
+            match other with
+            | PRef n =>
+                match lookup st n with
+                | Some o' =>
+                    match glue_eq o (Some o') with
+                    | Some b => (Done (Value (RBool b)), st)
+                    | None => (Unbound, st)
+                    end
+                | None => (Unbound, st)
+                end
+            | _ =>
+                match glue_eq o None with
+                | Some b => (Done (Value (RBool b)), st)
+                | None => (Unbound, st)
+                end
+            end
+        | None => (Unbound, st)
+        end
+    | KStr self =>
+        match lookup st self with
+        | Some (OEncoded a s) => (Done (Value (RStr s)), st)
+        | _ => (Unbound, st)
+        end
+    | KDist dst self =>
+        match lookup st self with
+        | Some (OScoring a s) => store st dst (glue_dist s)
+        | _ => (Unbound, unbind st dst)
+        end
+    | KFileNew dst => store st dst (Value OFile)
+    | KLoaderNew dst file format protein =>
+        match lookup st file with
+        | Some OFile => store st dst (glue_loader_new dst format protein)
+        | _ => (Unbound, unbind st dst)
+        end
+    | KLoaderNext self k =>
+        match lookup st self with
+        | Some (OLoader a id calls) =>
+            let (items, calls') := lazy_take a id calls k in
+            (Done (Value (RLoadSeq items)), bind_slot (unbind st self) self (OLoader a id calls'))
+        | _ => (Unbound, st)
         end
     | KDelete self =>
         (* objects derived earlier (scanners, scores, matrices taken from a motif) own or keep alive
@@ -899,6 +1062,10 @@ Arguments c_scoring_new {CM FM WM SM SQ SC} _.
 Arguments c_revcomp {CM FM WM SM SQ SC} _.
 Arguments c_max_score {CM FM WM SM SQ SC} _.
 Arguments c_sm_cells {CM FM WM SM SQ SC} _.
+Arguments c_cm_eq {CM FM WM SM SQ SC} _.
+Arguments c_wm_eq {CM FM WM SM SQ SC} _.
+Arguments c_sm_eq {CM FM WM SM SQ SC} _.
+Arguments c_dist_sf {CM FM WM SM SQ SC} _.
 Arguments c_stripe {CM FM WM SM SQ SC} _.
 Arguments c_configure {CM FM WM SM SQ SC} _.
 Arguments c_score {CM FM WM SM SQ SC} _.
@@ -911,6 +1078,8 @@ Arguments c_tfm_pvalue {CM FM WM SM SQ SC} _.
 Arguments c_tfm_score {CM FM WM SM SQ SC} _.
 Arguments c_scan {CM FM WM SM SQ SC} _.
 Arguments c_read {CM FM WM SM SQ SC} _.
+Arguments c_read_faulty {CM FM WM SM SQ SC} _.
+Arguments c_lazy_next {CM FM WM SM SQ SC} _.
 Arguments glue_background {CM FM WM SM SQ SC} K.
 Arguments glue_count_init {CM FM WM SM SQ SC} K.
 Arguments glue_normalize {CM FM WM SM SQ SC} K.
@@ -935,3 +1104,8 @@ Arguments load_items {CM FM WM SM SQ SC} K.
 Arguments glue_load {CM FM WM SM SQ SC} K.
 Arguments run_call {CM FM WM SM SQ SC} K.
 Arguments run_history {CM FM WM SM SQ SC} K.
+Arguments glue_encode {CM FM WM SM SQ SC} K.
+Arguments glue_enc_stripe {CM FM WM SM SQ SC} K.
+Arguments glue_eq {CM FM WM SM SQ SC} K.
+Arguments glue_dist {CM FM WM SM SQ SC} K.
+Arguments lazy_take {CM FM WM SM SQ SC} K.
